@@ -70,6 +70,16 @@ def check(ctx):
                         "try_merge_next_state_as_call passes scheme %s with the %s state" % (sch, side))
     mergetab.call_scheme_agrees(ctx, F)
 
+    # a stream fold is complete as soon as ONE of its generations completed (completeness accumulates with OR over the
+    # generations): if a later, still pending generation could reset it, the seq after the fold stops and the results the
+    # previous data already holds for the following instructions are never revisited
+    ctx.clause("R-OP FoldGenerationObserver::observe_completeness accumulates with OR")
+    ob = F.fn("completeness_updater::FoldGenerationObserver::observe_completeness")
+    obp = Prov(ob)
+    wr = [obp._rv(s_["rv"], 0, frozenset()) for bi, si, s_ in ob.stmts() if lib.place_fields(s_["lhs"]) and lib.place_fields(s_["lhs"])[-1][1] == "subgraph_complete"]
+    oko = len(wr) == 1 and wr[0][0] == "bin" and wr[0][1] == "BitOr" and {("subgraph_complete" in show(wr[0][2])), ("subgraph_complete" in show(wr[0][3]))} == {True, False}
+    ctx.require(oko, "R-OP", "fold-completeness:or", "subgraph_complete := subgraph_complete | completeness", "FoldGenerationObserver::observe_completeness assigns `%s`: the last generation alone decides whether the fold is complete" % ([show(w) for w in wr]))
+
     # update_ctx_states
     u = F.fn("state_automata::utils::update_ctx_states")
     up = Prov(u)
